@@ -239,7 +239,7 @@ def _work(chunk):
     return out
 
 
-BULK_FACTOR = 12
+BULK_FACTOR = 40
 SCALE_FACTOR = 2.5        # work(2n members) must stay below SCALE_FACTOR * work(n members) ...
 SCALE_FLOOR = 150_000     # ... once it is above this many lines (small runs are dominated by constants)
 _DOUBLE = {}
